@@ -178,6 +178,13 @@ def record_reuse_substring(node, table, include_inline=False):
                 refs(b)
 
     refs(node)
+    # a by-name field type whose name contains the enclosing record's name trips the same test even when the record itself
+    # is used only once (record Rec with a field of type "ns.Rec")
+    for name, t in table.items():
+        if t["k"] == "record":
+            for f in t["fields"]:
+                if f["type"]["k"] == "ref" and name in f["type"]["name"]:
+                    return True
     for name in reused:
         for f in table[name]["fields"]:
             t = f["type"]
@@ -214,7 +221,7 @@ class C15(Check):
     thorough = (8000, 16)
 
     def __init__(self):
-        self.feat = gen.Features(big=False, exotic_seqs=False, extra_keys=0.0, hints=0.0, recursion=False, empty_records=True)
+        self.feat = gen.Features(big=False, exotic_seqs=False, extra_keys=0.0, hints=0.0, recursion=False, empty_records=True, dict_null=True)
 
     def selftest(self):
         B.selftest()
